@@ -8,6 +8,7 @@ package ristretto
 import (
 	"fmt"
 	"sort"
+	"strings"
 	"sync"
 	"testing/synctest"
 	"time"
@@ -363,6 +364,13 @@ func (s *vfSM) rawClientOp(op *vfOp) {
 	case "get":
 		v, ok := s.c.Get(op.Key)
 		op.Res = fmt.Sprintf("%d,%v", v, ok)
+	case "iter":
+		var vals []string
+		s.c.IterValues(func(v uint64) bool {
+			vals = append(vals, fmt.Sprint(v))
+			return false
+		})
+		op.Res = strings.Join(vals, ",")
 	}
 }
 
